@@ -101,7 +101,7 @@ def parse_tlines(text, tag="T"):
     return res
 
 
-_COV_RE = re.compile(r"^<(\w+) line \d+, col \d+ to line \d+, col \d+ of module (\w+)>: (\d+):(\d+)")
+_COV_RE = re.compile(r"^<(\w+) line \d+, col \d+ to line \d+, col \d+ of module (\w+)(?: \([\d ]+\))?>: (\d+):(\d+)")
 
 
 def run_tlc(spec, cfg, *, tag, workers=8, simulate=None, depth=None, seed=None, env=None,
@@ -433,3 +433,70 @@ class Verdict:
 
 def tlc_violation_case(r):
     return {"tlc_violation": r.violation, "trace": r.trace, "cmd": r.cmd}
+
+
+# --------------------------------------------------------------------------------------
+# from TLC transitions to replayable behaviours
+# --------------------------------------------------------------------------------------
+def canon(x):
+    return json.dumps(x, sort_keys=True, separators=(",", ":"))
+
+
+def dedupe_transitions(tlines, skey="s", tkey="t", akey="a"):
+    """Distinct (s, a, t) projections of the transitions TLC explored."""
+    seen = {}
+    for t in tlines:
+        k = (canon(t[skey]), canon(t[akey]), canon(t[tkey]))
+        if k not in seen:
+            seen[k] = t
+    return list(seen.values())
+
+
+def cover_transitions(trans, init, max_len=40, skey="s", tkey="t"):
+    """Greedy transition tour: a list of behaviours (lists of transitions, each starting in `init`)
+    that together contain every transition reachable from init at least once."""
+    import collections
+    out = collections.defaultdict(list)
+    for i, t in enumerate(trans):
+        out[canon(t[skey])].append(i)
+    init_k = canon(init)
+    unvisited = set(range(len(trans)))
+    # shortest path tree from init (for restarting a behaviour at a far-away unvisited transition)
+    parent = {init_k: None}
+    q = collections.deque([init_k])
+    while q:
+        s = q.popleft()
+        for i in out.get(s, ()):
+            tk = canon(trans[i][tkey])
+            if tk not in parent:
+                parent[tk] = i
+                q.append(tk)
+
+    def path_to(sk):
+        p = []
+        while parent[sk] is not None:
+            i = parent[sk]
+            p.append(i)
+            sk = canon(trans[i][skey])
+        return list(reversed(p))
+
+    unreachable = [i for i in unvisited if canon(trans[i][skey]) not in parent]
+    unvisited -= set(unreachable)
+    behaviours = []
+    while unvisited:
+        # start: nearest (any) unvisited transition, via the shortest path to its source
+        i0 = min(unvisited)
+        beh = path_to(canon(trans[i0][skey])) + [i0]
+        unvisited.discard(i0)
+        for i in beh:
+            unvisited.discard(i)
+        cur = canon(trans[i0][tkey])
+        while len(beh) < max_len:
+            nxt = next((i for i in out.get(cur, ()) if i in unvisited), None)
+            if nxt is None:
+                break
+            beh.append(nxt)
+            unvisited.discard(nxt)
+            cur = canon(trans[nxt][tkey])
+        behaviours.append([trans[i] for i in beh])
+    return behaviours, len(unreachable)
